@@ -14,6 +14,9 @@
 (*   fail   t          TryToAcquire returned FALSE                          *)
 (*   rel    t          t wrote counter+1 and is about to call Release       *)
 (*   relret t          Release has returned                                 *)
+(*   srel t / srelret t   call / return of a Release by a task that holds   *)
+(*                     nothing, issued while the lock is free and no other  *)
+(*                     call is in progress (must have no effect)            *)
 (*   probe  st         the controller read the lock word: st                *)
 (*   nb     n0 n1      the 4 bytes behind the lock word (the lock is the    *)
 (*                     first field of a cell: zero / a datum / another held *)
@@ -41,6 +44,8 @@ Event(e) ==
     [] e.k = "fail"   -> RetFail(e.t) /\ UNCHANGED res
     [] e.k = "rel"    -> RelCall(e.t) /\ UNCHANGED res
     [] e.k = "relret" -> RelRet(e.t) /\ UNCHANGED res
+    [] e.k = "srel"   -> StrayCall(e.t) /\ UNCHANGED res
+    [] e.k = "srelret" -> StrayRet(e.t) /\ UNCHANGED res
     [] e.k = "probe"  -> ((e.st = 0) <=> (state = 0)) /\ UNCHANGED <<state, pc, counter, tmp, done, res>>
     [] e.k = "nb"     -> e.n0 = e.n1 /\ UNCHANGED <<state, pc, counter, tmp, done, res>>      \* lock operations never touch the neighbour
     [] e.k = "reset"  -> /\ state' = 0 /\ pc' = [t \in Tasks |-> "idle"] /\ counter' = 0
@@ -54,7 +59,7 @@ CanWin(t) == pc[t] = "acq" \/ (pc[t] = "try" /\ res[t] = "ok")
 Next == IF Urgent # {}
         THEN XchgBusy(CHOOSE t \in Urgent : \A u \in Urgent : t <= u) /\ UNCHANGED <<l, res>>
         ELSE \/ l <= Len(Trace) /\ Event(Trace[l]) /\ l' = l + 1
-             \/ \E t \in Tasks : ((CanWin(t) /\ XchgOk(t)) \/ Store0(t)) /\ UNCHANGED <<l, res>>
+             \/ \E t \in Tasks : ((CanWin(t) /\ XchgOk(t)) \/ Store0(t) \/ StrayStore(t)) /\ UNCHANGED <<l, res>>
 
 HWM == TLCSet(1, IF TLCGet(1) < l THEN l ELSE TLCGet(1))
 Accepted == IF TLCGet(1) = Len(Trace) + 1 THEN TRUE
